@@ -19,8 +19,8 @@ RUNS = {"quick": 700, "thorough": 30000}
 RUN_WALL_CAP = 30.0
 REQUIRED_PROBES = {"quick": ["pool_branch_entered", "two_chunks_two_workers", "transposed_branch", "untransposed_branch", "unequal_alphabets", "out_of_order_completion", "single_worker_pool", "second_pool_config_compared", "same_shape_game_sequence", "serial_game_before_pool_game"], "thorough": ["pool_branch_entered", "two_chunks_two_workers", "transposed_branch", "untransposed_branch", "unequal_alphabets", "out_of_order_completion", "single_worker_pool", "sixtyone_worker_pool", "second_pool_config_compared", "real_pool_crosscheck", "same_shape_game_sequence", "serial_game_before_pool_game"]}
 COMPONENTS = {"real": ["toqito.nonlocal_games.NonlocalGame.classical_value / process_iteration", "pickle round trip of every chunk", "numpy"], "stub": ["multiprocessing.Pool -> SimPool (discrete-event, in-process, CPython 3.12 chunking and fork-snapshot semantics)", "os.cpu_count (simulated)"]}
-RULE = ("one run = a history of 1..3 games (the next one of the same shape and different contents, or a fresh shape; the first game evaluated once more at the end), each with 1001..4096 strategies on the enumerated side (all shape families, unequal alphabets and question counts, 0/1 and fractional predicates, "
-        "uniform / skewed / zero-containing question distributions) x one simulated pool configuration (1..61 workers, idle-worker choice, chunk durations, stalls); "
+RULE = ("one run = a history of 1..3 games (the next one of the same shape and different contents, or a fresh shape; small sequential-branch games mixed in; the first pool game evaluated once more at the end; planted unique optima at adversarial enumeration positions), each with 1001..4096 strategies on the enumerated side (all shape families, unequal alphabets and question counts, 0/1 and fractional predicates, "
+        "uniform / skewed / zero-containing question distributions) x one simulated machine and pool configuration (1..61 CPUs / workers, idle-worker choice, chunk durations, stalls -> completion order; Pool and ProcessPoolExecutor both simulated); "
         "non-trivial = pool branch entered with >=2 workers used and >=2 chunks, or the 1-worker / 61-worker edge; distinct = distinct digest of (game, pool event order)")
 SHRINK_ORDER = ["config", "game", "fault", "pool", "pool2"]
 TOL = 1e-9
